@@ -141,6 +141,18 @@ func genIndexMapping(r *Rng) *mapping.IndexMappingImpl {
 		must(im.AddCustomDateTimeParser("mydate", map[string]interface{}{
 			"type": "flexiblego", "layouts": []interface{}{"2006/01/02", "2006-01-02T15:04:05Z07:00"},
 		}))
+		// definitions the mapping turns down (a name taken already, a component that does not exist): the caller carries
+		// on with the mapping as it is, and nothing of a rejected definition may reach the JSON form
+		if r.Chance(50) {
+			_ = im.AddCustomAnalyzer("myanalyzer", map[string]interface{}{"type": "custom", "tokenizer": "single", "token_filters": []interface{}{}})
+			_ = im.AddCustomAnalyzer("broken", map[string]interface{}{"type": "custom", "tokenizer": "no-such-tokenizer"})
+			_ = im.AddCustomTokenFilter("mylen", map[string]interface{}{"type": "length", "min": 1.0, "max": 2.0})
+			_ = im.AddCustomTokenFilter("badfilter", map[string]interface{}{"type": "no-such-filter"})
+			_ = im.AddCustomTokenizer("mytok", map[string]interface{}{"type": "regexp", "regexp": `\d+`})
+			_ = im.AddCustomCharFilter("myhtml", map[string]interface{}{"type": "regexp", "regexp": "a", "replace": "b"})
+			_ = im.AddCustomTokenMap("mywords", map[string]interface{}{"type": "custom", "tokens": []interface{}{"zzz"}})
+			_ = im.AddCustomDateTimeParser("mydate", map[string]interface{}{"type": "flexiblego", "layouts": []interface{}{"2006"}})
+		}
 	}
 	return im
 }
